@@ -443,7 +443,7 @@ CONTRACTS = CONTRACTS + [SEQOF_COMPONENTS]
 
 
 # ---- BIT STRING content: unused-bits octet + packed bits, or segments of 8 * maxChunkSize bits -----------------------------
-def _bits_obj(z, name, tagSet=None):
+def _bits_obj(z, name, tagSet=None, constrained=None):
     import z3 as _z
     from spec.smt import zeros, pack8, py_slice
 
@@ -455,21 +455,35 @@ def _bits_obj(z, name, tagSet=None):
         ex.assume(inr(out))
         return SeqV(out, 'bytes')
 
+    def derived(ex, self, bits, nm):
+        """every operator of BitString builds its result with self.clone(...): the result has the type's constraints and
+        is checked against them -- a padded form or a segment of a SIZE-constrained value may be refused"""
+        c = self.fields['constrained']
+        if c is not None and ex.choose(_z.And(c, ex.fresh('pieceViolatesTheConstraint', _z.BoolSort())), 'piece-refused'):
+            raise _Raise(ExcV('ValueConstraintError'))
+        return _bits_obj(bits, nm, self.fields['tagSet'], c)
+
     def lshift(ex, self, k):
         k = toint(k)
         ex.assume(_z.Length(zeros(k)) == _z.If(k > 0, k, 0))
-        return _bits_obj(_z.Concat(z, zeros(k)), name + '<<k', self.fields['tagSet'])
+        return derived(ex, self, _z.Concat(z, zeros(k)), name + '<<k')
 
     def clone(ex, self, *args, **kw):
         if args:
             raise Unsupported('BitString.clone with a new value')
-        return _bits_obj(z, name + '.clone()', kw.get('tagSet', self.fields['tagSet']))
+        c = self.fields['constrained']
+        if 'subtypeSpec' in kw:
+            spec = kw['subtypeSpec']
+            if not (isinstance(spec, Obj) and spec.fields.get('admitsEverything') is True):
+                raise Unsupported('BitString.clone with constraints other than the empty intersection')
+            c = _z.BoolVal(False)        # same bits, no constraints: nothing to refuse from here on
+        return _bits_obj(z, name + '.clone()', kw.get('tagSet', self.fields['tagSet']), c)
 
     def getslice(ex, self, lo, hi):
         lo = _z.IntVal(0) if lo is None else toint(lo)
         hi = _z.Length(z) if hi is None else toint(hi)
-        return _bits_obj(py_slice(z, lo, hi), name + '[a:b]', self.fields['tagSet'])
-    return Obj('BitString', {'tagSet': tagSet, 'bits': SeqV(z, 'any')},
+        return derived(ex, self, py_slice(z, lo, hi), name + '[a:b]')
+    return Obj('BitString', {'tagSet': tagSet, 'bits': SeqV(z, 'any'), 'constrained': constrained},
                {'asOctets': asoctets, '__lshift__': lshift, 'clone': clone, '__getslice__': getslice,
                 '__len__': lambda ex, self: _z.Length(z)}, name=name)
 
@@ -477,7 +491,8 @@ def _bits_obj(z, name, tagSet=None):
 def _bit_value(ex, env):
     import z3 as _z
     base = Obj('Tag', {'__truthy__': _z.Bool('hasBaseTag')}, name='baseTag')
-    return _bits_obj(env['bits'].z, 'value', Obj('TagSet', {'baseTag': base}, {'__getitem__': _some_tag}, name='tagSet'))
+    return _bits_obj(env['bits'].z, 'value', Obj('TagSet', {'baseTag': base}, {'__getitem__': _some_tag}, name='tagSet'),
+                     constrained=_z.Bool('value.hasConstraints'))
 
 
 def _encode_bit_chunk(ex, chunk, asn1Spec=None, **options):
@@ -493,7 +508,11 @@ BITS_ENC = Contract(
     properties=['C01', 'C03', 'C02', 'C13'],
     params=dict(self=PObj('BitStringEncoder'), bits=PIntTuple(), value=PDerived(_bit_value), asn1Spec=PConst(None),
                 encodeFun=PConst(FnV(_encode_bit_chunk, 'encodeFun')), options=POptions(maxChunkSize=PInt(), defMode=PBool())),
-    globals={'tag': {'TagSet': FnV(_tagset_ctor, 'tag.TagSet')}, 'hasBaseTag': __import__('z3').Bool('hasBaseTag')},
+    globals={'tag': {'TagSet': FnV(_tagset_ctor, 'tag.TagSet')}, 'hasBaseTag': __import__('z3').Bool('hasBaseTag'),
+             # constraint.ConstraintsIntersection() without operands admits every value (contracts.constraint)
+             'constraint': {'ConstraintsIntersection': FnV(lambda ex, *a: Obj('ConstraintsIntersection', {'admitsEverything': not a},
+                                                                              name='noConstraints'), 'ConstraintsIntersection'),
+                            '__name__': 'constraint'}},
     requires=['%s >= 0' % _MCS],
     ensures=[
         # X.690 8.6.2: initial octet = number of unused bits (0..7) of the final octet, then the bits, padded with zeros
